@@ -1150,6 +1150,18 @@ impl Transaction {
             }
 
             //
+            // the signature is checked against the key of the first input, so every
+            // other input that carries value must belong to that key as well
+            //
+            let signer: SaitoPublicKey = self.from[0].public_key;
+            if self.from.iter().any(|slip| {
+                slip.amount > 0 && slip.slip_type != SlipType::Bound && slip.public_key != signer
+            }) {
+                error!("ERROR 757294: transaction spends an input that does not belong to its signer");
+                return false;
+            }
+
+            //
             // validate routing path sigs
             //
             // it strengthens censorship-resistance and anti-MEV properties in the network
